@@ -1185,3 +1185,284 @@ Proof.
     destruct (attributes_to_string f) as [s|] eqn:E; exists f; repeat split; auto; intro k; rewrite <- S; apply M2.
   - destruct M as (k & M). exists k. now rewrite <- S.
 Qed.
+
+(* ================================================================================================ *)
+(* the aggregate form: {% html_attrs attrs:k=v ... defaults:k=v ... k=v ... %}                       *)
+(* ================================================================================================ *)
+Definition kname (x : (str * bool) * bool * aval) : str := fst (fst (fst x)).
+Definition extra_name (k : str) : bool :=
+  negb (is_agg k) && negb (str_eqb k k_attrs) && negb (str_eqb k k_defaults).
+(* attrs:<inner> or defaults:<inner> *)
+Definition agg_name (k : str) : bool :=
+  is_agg k && (str_eqb (fst (split_colon k)) k_attrs || str_eqb (fst (split_colon k)) k_defaults).
+Definition tag_kw (x : (str * bool) * bool * aval) : bool := extra_name (kname x) || agg_name (kname x).
+Definition plains (l : list ((str * bool) * bool * aval)) := filter (fun x => extra_name (kname x)) l.
+Definition aggs (l : list ((str * bool) * bool * aval)) := filter (fun x => negb (extra_name (kname x))) l.
+Definition nset (n : list (str * list ((str * bool) * aval))) (x : (str * bool) * bool * aval) :=
+  let '(o, i) := split_colon (kname x) in nested_set o i (snd x) n.
+Fixpoint nget (o : str) (n : list (str * list ((str * bool) * aval))) : list ((str * bool) * aval) :=
+  match n with [] => [] | (o', d) :: r => if str_eqb o o' then d else nget o r end.
+Definition nparam (e : str * list ((str * bool) * aval)) : option ((str * bool) * bool) * tval :=
+  (Some ((fst e, false), true), TD (snd e)).
+
+Lemma extra_kw_name x : extra_kw x = extra_name (kname x).
+Proof. reflexivity. Qed.
+
+Lemma agg_loop_tag l : forall n, forallb tag_kw l = true ->
+  agg_loop (map kwp l) n = Some (map kwp (plains l), map kname (plains l), fold_left nset (aggs l) n).
+Proof.
+  induction l as [|[[k idf] v] r IH]; intros n H; [reflexivity|].
+  cbn [forallb] in H. apply andb_true_iff in H as [H1 H2]. unfold tag_kw in H1. cbn [kname fst] in H1.
+  unfold plains, aggs. cbn [filter]. fold (plains r) (aggs r).
+  change (kname (k, idf, v)) with (fst k) in *.
+  cbn [map kwp fst snd agg_loop]. change (map (fun x => (Some (fst x), TS (snd x))) r) with (map kwp r).
+  destruct (extra_name (fst k)) eqn:E; cbn [negb].
+  - assert (A : is_agg (fst k) = false).
+    { unfold extra_name in E. apply andb_true_iff in E as [E _]. apply andb_true_iff in E as [E _].
+      now apply negb_true_iff in E. }
+    rewrite A, (IH n H2). reflexivity.
+  - cbn [orb] in H1. unfold agg_name in H1. apply andb_true_iff in H1 as [A _]. rewrite A.
+    cbn [fold_left]. unfold nset at 2. change (kname (k, idf, v)) with (fst k). cbn [snd].
+    destruct (split_colon (fst k)) as [o i]. apply (IH _ H2).
+Qed.
+
+Lemma nget_nested_set o' o i v n :
+  nget o' (nested_set o i v n) = if str_eqb o' o then dset (i, false) v (nget o' n) else nget o' n.
+Proof.
+  induction n as [|[o1 d1] r IH]; cbn [nested_set nget].
+  - destruct (str_eqb o' o); reflexivity.
+  - destruct (str_eqb o o1) eqn:E; cbn [nget].
+    + apply str_eqb_eq in E. subst o1. destruct (str_eqb o' o); reflexivity.
+    + destruct (str_eqb o' o1) eqn:F; [|exact IH].
+      apply str_eqb_eq in F. subst o1. rewrite str_eqb_sym in E. now rewrite E.
+Qed.
+
+Lemma onames_nested_set o i v n o' :
+  In o' (map fst (nested_set o i v n)) <-> o' = o \/ In o' (map fst n).
+Proof.
+  induction n as [|[o1 d1] r IH]; cbn [nested_set map fst In].
+  - intuition.
+  - destruct (str_eqb o o1) eqn:E; cbn [map fst In].
+    + apply str_eqb_eq in E. subst o1. intuition.
+    + rewrite IH. intuition.
+Qed.
+
+Lemma onames_nested_set_nodup o i v n : NoDup (map fst n) -> NoDup (map fst (nested_set o i v n)).
+Proof.
+  induction n as [|[o1 d1] r IH]; cbn [nested_set map fst]; intro H.
+  - constructor; [intros []|constructor].
+  - inversion H as [|? ? Hn Hr]; subst. destruct (str_eqb o o1) eqn:E; cbn [map fst].
+    + constructor; assumption.
+    + constructor; [|exact (IH Hr)]. intro K. apply onames_nested_set in K as [K|K]; [|exact (Hn K)].
+      subst o1. now rewrite str_eqb_refl in E.
+Qed.
+
+Lemma split_colon_join k : has_colon k = true -> k = fst (split_colon k) ++ 58 :: snd (split_colon k).
+Proof.
+  induction k as [|c r IH]; [discriminate|]. cbn [has_colon split_colon].
+  destruct (N.eqb_spec c 58) as [->|Hc]; [reflexivity|]. cbn [orb]. intro H.
+  destruct (split_colon r) as [a b] eqn:S. cbn [fst snd app] in *. f_equal. exact (IH H).
+Qed.
+
+Lemma is_agg_has_colon k : is_agg k = true -> has_colon k = true.
+Proof. destruct k as [|c r]; [discriminate|]. unfold is_agg. intro H. now apply andb_true_iff in H as [_ H]. Qed.
+
+Lemma names_entries l : map (fun kv : (str * bool) * aval => fst (fst kv)) (map kw_entry l) = map kname l.
+Proof. rewrite map_map. reflexivity. Qed.
+
+(* invariants of the nested dictionaries while the aggregate keys are folded in *)
+Lemma fold_inv l : forall n,
+  (forall x, In x l -> agg_name (kname x) = true) ->
+  NoDup (map fst n) -> (forall o, In o (map fst n) -> o = k_attrs \/ o = k_defaults) ->
+  (forall o, keys_nodup (nget o n)) ->
+  NoDup (map fst (fold_left nset l n)) /\
+  (forall o, In o (map fst (fold_left nset l n)) -> o = k_attrs \/ o = k_defaults) /\
+  (forall o, keys_nodup (nget o (fold_left nset l n))).
+Proof.
+  induction l as [|x r IH]; intros n Ha H1 H2 H3; [auto|].
+  cbn [fold_left]. apply IH.
+  - intros y I. apply Ha. right. exact I.
+  - unfold nset. destruct (split_colon (kname x)). now apply onames_nested_set_nodup.
+  - intros o I. unfold nset in I. destruct (split_colon (kname x)) as [ox ix] eqn:S.
+    apply onames_nested_set in I as [->|I]; [|exact (H2 o I)].
+    specialize (Ha x (or_introl eq_refl)). unfold agg_name in Ha. apply andb_true_iff in Ha as [_ Ha].
+    rewrite S in Ha. cbn [fst] in Ha. apply orb_true_iff in Ha as [Ha|Ha]; apply str_eqb_eq in Ha; auto.
+  - intro o. unfold nset. destruct (split_colon (kname x)) as [ox ix]. rewrite nget_nested_set.
+    destruct (str_eqb o ox); [apply dset_keys_nodup|]; apply H3.
+Qed.
+
+(* what the nested dictionary of prefix o holds for an inner name = what the key o:inner holds *)
+Lemma fold_nget o (Ho : forall i, split_colon (o ++ 58 :: i) = (o, i)) l : forall n,
+  NoDup (map kname l) -> (forall x, In x l -> is_agg (kname x) = true) ->
+  forall i, dget i (nget o (fold_left nset l n))
+            = match dget (o ++ 58 :: i) (map kw_entry l) with Some v => Some v | None => dget i (nget o n) end.
+Proof.
+  induction l as [|x r IH]; intros n ND Ha i; [reflexivity|].
+  cbn [map] in ND. inversion ND as [|? ? Hn ND']; subst.
+  cbn [fold_left]. rewrite (IH _ ND' (fun y I => Ha y (or_intror I))).
+  cbn [map]. unfold kw_entry at 2. cbn [dget fst snd]. fold (kname x).
+  pose proof (split_colon_join _ (is_agg_has_colon _ (Ha x (or_introl eq_refl)))) as J.
+  unfold nset. destruct (split_colon (kname x)) as [ox ix] eqn:S. cbn [fst snd] in J.
+  rewrite nget_nested_set.
+  destruct (str_eqb (o ++ 58 :: i) (kname x)) eqn:E.
+  - apply str_eqb_eq in E. rewrite <- E, Ho in S. injection S as <- <-.
+    assert (G : dget (o ++ 58 :: i) (map kw_entry r) = None).
+    { apply dget_none_keys. rewrite names_entries, E. exact Hn. }
+    rewrite G, str_eqb_refl, dget_dset. cbn [fst]. now rewrite str_eqb_refl.
+  - destruct (dget (o ++ 58 :: i) (map kw_entry r)); [reflexivity|].
+    destruct (str_eqb o ox) eqn:F; [|reflexivity]. apply str_eqb_eq in F. subst ox.
+    rewrite dget_dset. cbn [fst]. destruct (str_eqb i ix) eqn:G; [|reflexivity].
+    apply str_eqb_eq in G. subst ix. rewrite J, str_eqb_refl in E. discriminate E.
+Qed.
+
+Lemma agg_finish_ok (N : list (str * list ((str * bool) * aval))) seen :
+  (forall o, In o (map fst N) -> (o = k_attrs \/ o = k_defaults) /\ mem_str o seen = false) ->
+  agg_finish N seen = Some (Some (map nparam N)).
+Proof.
+  induction N as [|[o d] r IH]; intro H; [reflexivity|].
+  cbn [agg_finish map nparam fst snd]. destruct (H o (or_introl eq_refl)) as [Ho Hs]. rewrite Hs.
+  rewrite IH; [|intros o' I; apply H; right; exact I].
+  destruct Ho as [->| ->]; reflexivity.
+Qed.
+
+Lemma pas_all_kw l : forall b,
+  forallb (fun p : option ((str * bool) * bool) * tval => match fst p with Some _ => true | None => false end) l = true ->
+  positional_after_special l b = false.
+Proof.
+  induction l as [|[[[k idf]|] v] r IH]; intros b H; [reflexivity| |discriminate H].
+  cbn [forallb fst] in H. cbn [positional_after_special]. apply IH. exact H.
+Qed.
+
+Lemma bind_app l1 : forall l2 b,
+  bind (l1 ++ l2) b = match bind l1 b with Some b' => bind l2 b' | None => None end.
+Proof.
+  induction l1 as [|[[[k idf]|] v] r IH]; intros l2 b; [reflexivity| |]; cbn [app bind].
+  - destruct idf; [|apply IH].
+    destruct (str_eqb (fst k) k_attrs); [destruct (b_attrs b); [reflexivity|apply IH]|].
+    destruct (str_eqb (fst k) k_defaults); [destruct (b_defaults b); [reflexivity|apply IH]|]. apply IH.
+  - destruct (b_seen_kw b); [reflexivity|]. destruct (b_args b) as [|a [|a2 t]]; [apply IH|apply IH|reflexivity].
+Qed.
+
+(* the nested dictionaries: at most `attrs` and `defaults`, each once *)
+Lemma nested_shape (N : list (str * list ((str * bool) * aval))) : NoDup (map fst N) -> (forall o, In o (map fst N) -> o = k_attrs \/ o = k_defaults) ->
+  N = [] \/ (exists A, N = [(k_attrs, A)]) \/ (exists D, N = [(k_defaults, D)]) \/
+  (exists A D, N = [(k_attrs, A); (k_defaults, D)]) \/ (exists A D, N = [(k_defaults, D); (k_attrs, A)]).
+Proof.
+  intros ND H. destruct N as [|[o1 d1] [|[o2 d2] [|[o3 d3] t]]]; [auto| | |].
+  - right. destruct (H o1 (or_introl eq_refl)) as [->| ->]; [left|right; left]; eauto.
+  - right; right; right. cbn [map fst] in *.
+    inversion ND as [|? ? N1 ND1]; subst.
+    destruct (H o1 (or_introl eq_refl)) as [->| ->], (H o2 (or_intror (or_introl eq_refl))) as [->| ->].
+    + exfalso. apply N1. left. reflexivity.
+    + left. eauto.
+    + right. eauto.
+    + exfalso. apply N1. left. reflexivity.
+  - exfalso. cbn [map fst] in *.
+    inversion ND as [|? ? N1 ND1]; subst. inversion ND1 as [|? ? N2 ND2]; subst.
+    destruct (H o1 (or_introl eq_refl)) as [->| ->], (H o2 (or_intror (or_introl eq_refl))) as [->| ->],
+             (H o3 (or_intror (or_intror (or_introl eq_refl)))) as [->| ->];
+      try (apply N1; left; reflexivity); try (apply N1; right; left; reflexivity); try (apply N2; left; reflexivity).
+Qed.
+
+Lemma dget_filter_name (fb : str -> bool) k l :
+  dget k (map kw_entry (filter (fun x => fb (kname x)) l)) = if fb k then dget k (map kw_entry l) else None.
+Proof.
+  induction l as [|x r IH]; [now destruct (fb k)|]. cbn [filter].
+  destruct (fb (kname x)) eqn:F; cbn [map kw_entry dget fst]; fold (kname x).
+  - destruct (str_eqb k (kname x)) eqn:E; [|exact IH]. apply str_eqb_eq in E. subst k. now rewrite F.
+  - rewrite IH. destruct (str_eqb k (kname x)) eqn:E; [|reflexivity]. apply str_eqb_eq in E. subst k. now rewrite F.
+Qed.
+
+Lemma nodup_filter_names (f : (str * bool) * bool * aval -> bool) l :
+  NoDup (map kname l) -> NoDup (map kname (filter f l)).
+Proof.
+  induction l as [|x r IH]; [constructor|]. cbn [map filter]. intro H. inversion H as [|? ? Hn Hr]; subst.
+  destruct (f x); [|exact (IH Hr)]. cbn [map]. constructor; [|exact (IH Hr)].
+  intro I. apply Hn. apply in_map_iff in I as (y & Y1 & Y2). apply in_map_iff. exists y. split; [exact Y1|].
+  apply filter_In in Y2. tauto.
+Qed.
+
+(* names of the merged list are names of the written list *)
+Lemma merged_names_from kws out :
+  (forall k, dget k (map kw_entry out) = kw_val (occ k (map kw_entry kws))) ->
+  forall x, In x out -> exists y, In y kws /\ kname y = kname x.
+Proof.
+  intros O3 x I.
+  assert (G : dget (kname x) (map kw_entry out) <> None).
+  { intro G. apply dget_none_keys in G. apply G. rewrite names_entries. apply in_map_iff. exists x. auto. }
+  rewrite O3 in G. clear - G. induction kws as [|[[k' i'] v'] r IH]; [exfalso; apply G; reflexivity|].
+  cbn [map kw_entry occ fst snd] in G. destruct (str_eqb (kname x) (fst k')) eqn:E.
+  - apply str_eqb_eq in E. exists ((k', i'), v'). split; [left; reflexivity|]. cbn. auto.
+  - destruct (IH G) as (y & Y1 & Y2). exists y. split; [right; exact Y1|exact Y2].
+Qed.
+
+Lemma split_attrs i : split_colon (k_attrs ++ 58 :: i) = (k_attrs, i).
+Proof. reflexivity. Qed.
+Lemma split_defaults i : split_colon (k_defaults ++ 58 :: i) = (k_defaults, i).
+Proof. reflexivity. Qed.
+
+(* THE AGGREGATE FORM: any list of keywords each of which is attrs:<name>, defaults:<name> or an extra keyword -
+   in any order, repeated in any pattern: the tag behaves as html_attrs on the dictionary A of the attrs: keys, the
+   dictionary D of the defaults: keys and the dictionary of the extra keywords, each name holding kw_val of the
+   values written for it *)
+Lemma tag_aggregate_lemma kws : forallb tag_kw kws = true ->
+  exists A D kw, html_attrs_tag (map kwp kws) = html_attrs A D kw /\
+    keys_nodup A /\ keys_nodup D /\ keys_nodup kw /\
+    (forall i, dget i A = kw_val (occ (k_attrs ++ 58 :: i) (map kw_entry kws))) /\
+    (forall i, dget i D = kw_val (occ (k_defaults ++ 58 :: i) (map kw_entry kws))) /\
+    (forall k, dget k kw = if extra_name k then kw_val (occ k (map kw_entry kws)) else None).
+Proof.
+  intro H. destruct (merge_repeated_kw kws []) as (out & O1 & O2 & O3). cbn [mem_str] in O3.
+  assert (Hout : forallb tag_kw out = true).
+  { rewrite forallb_forall. intros x I. rewrite forallb_forall in H.
+    destruct (merged_names_from kws out O3 x I) as (y & Y1 & Y2). specialize (H y Y1). unfold tag_kw in *.
+    now rewrite <- Y2. }
+  assert (NDo : NoDup (map kname out)) by (rewrite <- names_entries; exact O2).
+  set (N := fold_left nset (aggs out) []).
+  assert (Hagg : forall x, In x (aggs out) -> agg_name (kname x) = true).
+  { intros x I. unfold aggs in I. apply filter_In in I as [I E]. rewrite forallb_forall in Hout.
+    specialize (Hout x I). unfold tag_kw in Hout. apply negb_true_iff in E. now rewrite E in Hout. }
+  assert (Hisagg : forall x, In x (aggs out) -> is_agg (kname x) = true).
+  { intros x I. specialize (Hagg x I). unfold agg_name in Hagg. now apply andb_true_iff in Hagg as [Hagg _]. }
+  destruct (fold_inv (aggs out) [] Hagg (NoDup_nil _) (fun o (I : In o []) => match I with end)
+                     (fun o => NoDup_nil _)) as (N1 & N2 & N3). fold N in N1, N2, N3.
+  assert (NDa : NoDup (map kname (aggs out))) by (apply nodup_filter_names; exact NDo).
+  assert (Hpl : forallb extra_kw (plains out) = true).
+  { rewrite forallb_forall. intros x I. unfold plains in I. apply filter_In in I as [_ E]. exact E. }
+  assert (Hseen : forall o, In o (map fst N) -> (o = k_attrs \/ o = k_defaults) /\ mem_str o (map kname (plains out)) = false).
+  { intros o I. split; [exact (N2 o I)|].
+    assert (Ex : extra_name o = false) by (destruct (N2 o I) as [->| ->]; reflexivity).
+    clear - Ex. induction out as [|x r IH]; [reflexivity|]. unfold plains. cbn [filter].
+    destruct (extra_name (kname x)) eqn:E; [|exact IH]. cbn [map mem_str]. fold (plains r). rewrite IH, orb_false_r.
+    destruct (str_eqb o (kname x)) eqn:F; [|reflexivity]. apply str_eqb_eq in F. subst o. rewrite E in Ex. discriminate. }
+  exists (nget k_attrs N), (nget k_defaults N),
+         (map kw_entry (idents (plains out)) ++ map kw_entry (specials (plains out))).
+  assert (NDp : keys_nodup (map kw_entry (plains out))).
+  { unfold keys_nodup. rewrite names_entries. apply nodup_filter_names. exact NDo. }
+  split; [|split; [apply N3|split; [apply N3|split; [apply partition_nodup; exact NDp|split; [|split]]]]].
+  - unfold html_attrs_tag. rewrite O1. unfold aggregate. rewrite (agg_loop_tag out [] Hout). fold N.
+    rewrite (agg_finish_ok N _ Hseen).
+    rewrite pas_all_kw.
+    2:{ rewrite forallb_app. apply andb_true_iff. split; rewrite forallb_forall; intros p I;
+        apply in_map_iff in I as (y & <- & _); reflexivity. }
+    rewrite bind_app.
+    destruct (bind_kw (plains out) Hpl bound0) as (b' & B1 & B2 & B3 & B4 & B5).
+    rewrite B1. cbn [bound0 b_attrs b_defaults b_kw b_special app] in B2, B3, B4, B5.
+    destruct b' as [bargs battrs bdefaults bkw bspecial bseen]. cbn [b_attrs b_defaults b_kw b_special] in *. subst.
+    destruct (nested_shape N N1 N2) as [E|[(A & E)|[(D & E)|[(A & D & E)|(A & D & E)]]]]; rewrite E;
+      cbn [map nparam fst snd bind b_attrs b_defaults b_kw b_special b_args b_seen_kw str_eqb k_attrs k_defaults
+           N.eqb Pos.eqb andb as_dict nget];
+      rewrite <- map_app, as_scalars_kw, map_app; reflexivity.
+  - intro i. unfold N. rewrite (fold_nget k_attrs split_attrs (aggs out) [] NDa Hisagg i). cbn [nget dget].
+    unfold aggs. rewrite (dget_filter_name (fun k => negb (extra_name k))). cbn [negb]. rewrite O3.
+    replace (extra_name (k_attrs ++ 58 :: i)) with false; [cbn [negb]|].
+    + now destruct (kw_val (occ (k_attrs ++ 58 :: i) (map kw_entry kws))).
+    + reflexivity.
+  - intro i. unfold N. rewrite (fold_nget k_defaults split_defaults (aggs out) [] NDa Hisagg i). cbn [nget dget].
+    unfold aggs. rewrite (dget_filter_name (fun k => negb (extra_name k))). cbn [negb]. rewrite O3.
+    replace (extra_name (k_defaults ++ 58 :: i)) with false; [cbn [negb]|].
+    + now destruct (kw_val (occ (k_defaults ++ 58 :: i) (map kw_entry kws))).
+    + reflexivity.
+  - intro k. rewrite (dget_partition k (plains out) NDp). unfold plains.
+    rewrite (dget_filter_name extra_name), O3. reflexivity.
+Qed.
